@@ -12,7 +12,7 @@ def deriv_expected(cs):
 class P(Prop):
     ID = "C08"
     MODULE = "C08"
-    THEOREMS = ["C08_shapes", "C08_lane_rounded"] + ["C08_Poly%d_value" % k for k in range(9)] + \
+    THEOREMS = ["C08_shapes", "C08_lane_rounded", "C08_pow2_exact"] + ["C08_Poly%d_value" % k for k in range(9)] + \
                ["C08_is_derivative", "C08_map_length", "C08_map_nth", "C08_example"]
     KERNELS = ["Poly%d::derivative" % k for k in range(9)] + ["Segment<Poly%d>::derivative" % k for k in range(9)]
     RULE = ("PolyK::derivative / Segment<PolyK>::derivative kernels (K=0..8) checked lane by lane in Coq for all inputs; "
